@@ -14,7 +14,13 @@
    FORD keeps four independent dictionaries per scope (procedures, abstract interfaces, types,
    variables) and treats them identically; the model is parametrised by the class [c] of the
    dictionary.  Names are assumed lower-cased (Corr/C06.v lower-cases the harness input, as FORD
-   lower-cases every key). *)
+   lower-cases every key).
+
+   Outside the model: submodules, external modules (ExternalModule objects), USE statements inside
+   procedures (FORD shares the host's dictionaries with contained procedures: C07), operator /
+   assignment generic-specs in ONLY lists, how the accessibility of own declarations is computed
+   (C04: d_perm is an input).  A program unit is projected as a module that nobody uses (only its
+   all_* dictionaries are compared). *)
 From Ford Require Import Base.Str.
 
 Inductive perm := Public | Private | Protected.
